@@ -243,13 +243,7 @@ def _ods_text(element, location):
     result = element.text or ""
     for child in element:
         if child.tag == _TEXT_S:
-            count_text = child.attrib.get(_TEXT_C, "1")
-            try:
-                result += " " * int(count_text)
-            except ValueError:
-                raise errors.DataFormatError(
-                    "text:c is %s but must be an integer" % _compat.text_repr(count_text), location
-                )
+            result += " " * _ods_repeat_count(child, _TEXT_C, location, "text:", 0)
         elif child.tag == _TEXT_TAB:
             result += "\t"
         elif child.tag == _TEXT_LINE_BREAK:
@@ -260,14 +254,19 @@ def _ods_text(element, location):
     return result
 
 
-def _ods_repeat_count(element, attribute_name, location):
+#: Maximum for repeat counts in ODS, which is the number of rows of the largest sheet a spreadsheet application supports.
+_MAX_ODS_REPEAT_COUNT = 16777216
+
+
+def _ods_repeat_count(element, attribute_name, location, xml_prefix="table:", minimum=1):
     """
     The value of the repeat count ``attribute_name`` of ``element`` (1 if there is none).
 
-    :raises cutplace.errors.DataFormatError: if the value is not a positive integer written with the digits 0 to 9
+    :raises cutplace.errors.DataFormatError: if the value is not an integer between ``minimum`` and \
+      `_MAX_ODS_REPEAT_COUNT` written with the digits 0 to 9
     """
     repeat_text = element.attrib.get(attribute_name, "1")
-    xml_attribute_name = "table:" + attribute_name.split("}")[-1]
+    xml_attribute_name = xml_prefix + attribute_name.split("}")[-1]
     stripped_repeat_text = repeat_text.strip()
     digits = stripped_repeat_text[1:] if stripped_repeat_text.startswith("+") else stripped_repeat_text
     # Note: int() would also accept "1_0", "\uff12" (fullwidth digit two) and the like.
@@ -275,10 +274,18 @@ def _ods_repeat_count(element, attribute_name, location):
         raise errors.DataFormatError(
             "%s is %s but must be an integer" % (xml_attribute_name, _compat.text_repr(repeat_text)), location
         )
-    result = int(stripped_repeat_text)
-    if result < 1:
+    # Note: int() refuses to convert texts with thousands of digits.
+    result = int(digits) if len(digits.lstrip("0")) <= 20 else _MAX_ODS_REPEAT_COUNT + 1
+    if result < minimum:
         raise errors.DataFormatError(
-            "%s is %s but must be at least 1" % (xml_attribute_name, _compat.text_repr(repeat_text)), location
+            "%s is %s but must be at least %d" % (xml_attribute_name, _compat.text_repr(repeat_text), minimum),
+            location,
+        )
+    if result > _MAX_ODS_REPEAT_COUNT:
+        raise errors.DataFormatError(
+            "%s is %s but must be at most %d"
+            % (xml_attribute_name, _compat.text_repr(repeat_text)[:40], _MAX_ODS_REPEAT_COUNT),
+            location,
         )
     return result
 
